@@ -553,8 +553,53 @@ func genUnicodeTables() string {
 	b.WriteString(rangeTable("unicodeLetter", unicode.Letter))
 	b.WriteString(rangeTable("unicodeDigit", unicode.Digit))
 	b.WriteString(rangeTable("unicodeSpace", unicode.White_Space))
-	b.WriteString("/-- unicode.IsLetter / IsDigit / IsSpace: ASCII by the fixed tables, range tables above -/\n")
-	b.WriteString("def goCharClass : ExprModel.Lex.CharClass := ExprModel.Lex.CharClass.ofRanges unicodeLetter unicodeDigit unicodeSpace\n")
+	fmt.Fprintf(&b, "/-- lexer.go acceptWord: does it skip every IsSpace rune and end the word at any rune that is not\n    IsAlphaNumeric (true), or skip U+0020 only and want U+0020 or the end of input after the word (false)? -/\ndef acceptWordAnySpace : Bool := %v\n", acceptWordAnySpace())
+	b.WriteString("/-- unicode.IsLetter / IsDigit / IsSpace: ASCII by the fixed tables, range tables above;\n    `notInAnySpace`: the shape of acceptWord -/\n")
+	b.WriteString("def goCharClass : ExprModel.Lex.CharClass :=\n  { ExprModel.Lex.CharClass.ofRanges unicodeLetter unicodeDigit unicodeSpace with notInAnySpace := acceptWordAnySpace }\n")
 	b.WriteString("end ExprModel.Gen\n")
 	return b.String()
+}
+
+// acceptWordAnySpace recognises the two shapes of (*lexer).acceptWord the Lean model covers
+// (ExprModel.Lex.acceptWord with CharClass.notInAnySpace false / true) and refuses anything else.
+func acceptWordAnySpace() bool {
+	lx := parseFile("parser/lexer/lexer.go")
+	fd := funcDecl(lx, "*lexer", "acceptWord")
+	if got := exprStr(fd.Type); got != "func(word string) bool" {
+		refuse(fd.Pos(), "acceptWord: signature %s", got)
+	}
+	restore := "l.end, l.loc, l.prev = pos, loc, prev\n\treturn false\n}"
+	shape := func(skip, end string) []string {
+		return []string{
+			"pos, loc, prev := l.end, l.loc, l.prev",
+			"r := l.peek()",
+			"for ; " + skip + "; r = l.peek() {\n\tl.next()\n}",
+			"for _, ch := range word {\n\tif l.next() != ch {\n\t\tl.end, l.loc, l.prev = pos, loc, prev\n\t\treturn false\n\t}\n}",
+			"if r = l.peek(); " + end + " {\n\t" + restore,
+			"return true",
+		}
+	}
+	var got []string
+	for _, st := range fd.Body.List {
+		got = append(got, exprStr(st))
+	}
+	same := func(want []string) bool {
+		if len(got) != len(want) {
+			return false
+		}
+		for i := range got {
+			if got[i] != want[i] {
+				return false
+			}
+		}
+		return true
+	}
+	switch {
+	case same(shape("r == ' '", "r != ' ' && r != eof")):
+		return false
+	case same(shape("IsSpace(r)", "IsAlphaNumeric(r)")):
+		return true
+	}
+	refuse(fd.Pos(), "acceptWord: unrecognised shape %q", got)
+	return false
 }
